@@ -366,6 +366,29 @@ func Spell(t *rapid.T, hdoc string, tp model.Pos, allowed Spelling) string {
 	case SpellRootRel:
 		return tu.Path + frag
 	}
+	if Pct(t, "messyabs", 20) {
+		// an equivalent, non-canonical absolute URL: redundant dot segments, upper-case scheme/host, default port
+		u := *tu
+		dir, file := u.Path[:strings.LastIndex(u.Path, "/")+1], pathBase(u.Path)
+		switch Uniform(t, "messykind", 4) {
+		case 0:
+			u.Path = dir + "./" + file
+		case 1:
+			u.Path = dir + "zz/../" + file
+		case 2:
+			u.Scheme = strings.ToUpper(u.Scheme)
+			u.Host = strings.ToUpper(u.Host)
+		case 3:
+			if u.Scheme == "http" {
+				u.Host += ":80"
+			} else if u.Scheme == "https" {
+				u.Host += ":443"
+			} else {
+				u.Path = dir + "./" + file
+			}
+		}
+		return u.String() + frag
+	}
 	return tp.Doc + frag
 }
 
